@@ -16,13 +16,16 @@ def callsBefore (calls : List String) (x : String) : List String := calls.takeWh
 def callsAfter (calls : List String) (x : String) : List String := (calls.dropWhile (· ≠ x)).drop 1
 
 /-- `createValue`: what happens between `s.lock.Lock()` and `createFn()`?
-    * a lookup in the memory maps (`s.getValueFromMem`)           → `recheckMem`
-    * … and a test whether a flush completed (`s.flushedSince`)  → `recheckFull`
-    * neither                                                     → `noRecheck` -/
+    * a lookup in the memory maps (`s.getValueFromMem`)                         → `recheckMem`
+    * … and a test whether a flush completed (`s.flushedSince`)                → `recheckFull`
+    * … and a lookup in the bucket of the current snapshot (`bucket.GetValue`) → `recheckLocked`
+    * neither                                                                   → `noRecheck` -/
 def kvVariantOf (createValueCalls : List String) : KvVariant :=
   let locked := callsBefore (callsAfter createValueCalls "lock.Lock") "createFn"
   if createValueCalls.contains "lock.Lock" ∧ createValueCalls.contains "createFn" ∧ locked.contains "s.getValueFromMem" then
-    if locked.contains "s.flushedSince" then .recheckFull else .recheckMem
+    if locked.contains "s.flushedSince" then .recheckFull
+    else if locked.contains "reader.GetBucket" ∧ locked.contains "bucket.GetValue" then .recheckLocked
+    else .recheckMem
   else .noRecheck
 
 /-- `genFieldID` / `genTagKeyID`: is the schema read (`s.GetSchema`) before the lock is taken,
@@ -46,6 +49,10 @@ def seqWriteThroughOf (helpers : List (String × List String)) (gens : List (Lis
 def seriesLimitFirstOf (genSeriesCalls : List String) : Bool :=
   (callsBefore genSeriesCalls "series.GetOrCreateValue").contains "limits.GetSeriesLimit"
 
+/-- `getOrCreateValue`: is the lookup in the memory maps made before the persisted bucket is searched? -/
+def kvMemFirstOf (getOrCreateCalls : List String) : Bool :=
+  (callsBefore getOrCreateCalls "bucket.GetValue").any (fun c => c = "s.GetValueFromMem" || c = "s.getValueFromMemWithSeq")
+
 /-- the variant of the code in /repo now -/
 def currentCfg : Cfg :=
   { kv := kvVariantOf C09.kvCreateValueCalls
@@ -55,6 +62,7 @@ def currentCfg : Cfg :=
     seriesLimitFirst := seriesLimitFirstOf C09.indexGenSeriesCalls
     schemaMarkWritten := C09.schemaFlushCalls.contains "λ:value.MarkPersistedPrefix" &&
       !C09.schemaFlushCalls.contains "λ:value.MarkPersisted"
+    kvMemFirst := kvMemFirstOf C09.kvGetOrCreateCalls
     prepareSwapsEmpty := [C09.kvPrepareFlushCalls, C09.schemaPrepareFlushCalls, C09.invertedPrepareFlushCalls,
       C09.forwardPrepareFlushCalls].all (·.contains "immutable.IsEmpty") }
 
